@@ -167,9 +167,19 @@ def global_programs(rng, n_each, big=False):
         n = rng.choice([2, 3])
         doms = [(rng.randint(0, 1), rng.randint(2, 4)) for _ in range(n)]
         progs.append({"vars": doms, "cons": [("no_overlap", list(range(n)), [rng.randint(1, 3) for _ in range(n)])]})
+    # no_overlap, systematically: two tasks, every ordered pair of start windows from a heterogeneous set (nested, shifted, disjoint,
+    # fixed) x duration pairs incl. 0 - the listing order and the window geometry are what a pairwise encoding can get wrong
+    WIN = [(0, 2), (0, 4), (1, 3), (2, 4), (3, 5), (1, 1)]
+    DUR = [(1, 1), (2, 2), (1, 3), (3, 1), (0, 2), (2, 0), (2, 1)]
+    pairs = [(w1, w2, d) for w1 in WIN for w2 in WIN for d in DUR]
+    for (w1, w2, d) in pairs:
+        progs.append({"vars": [w1, w2], "cons": [("no_overlap", [0, 1], list(d))]})
     for _ in range(n_each):
         n = rng.choice([2, 3, 4])
-        doms = [(0, rng.randint(1, 3)) for _ in range(n)]
+        doms = []
+        for _i in range(n):
+            lo = rng.choice([0, 0, 1, 2])
+            doms.append((lo, lo + rng.randint(1, 3)))
         progs.append({"vars": doms, "cons": [("cumulative", list(range(n)), [rng.randint(1, 3) for _ in range(n)],
                                               [rng.randint(1, 2) for _ in range(n)], rng.randint(1, 3))]})
     # cumulative with more than 10 simultaneously active start literals
